@@ -315,6 +315,7 @@ func TestTimePeriod(t *testing.T) {
 		d := time.Duration(secs) * time.Second
 		viaCtor := rapid.Bool().Draw(t, "ctor")
 		var tp *model.TimePeriodType
+		created := time.Now()
 		if viaCtor {
 			tp = model.NewTimePeriodTypeWithRelativeEndTime(d)
 		} else {
@@ -328,8 +329,12 @@ func TestTimePeriod(t *testing.T) {
 			if err != nil {
 				world.Fail(t, "C19/timeperiod/"+what, "%s: error %v for %v", what, err, d)
 			}
-			if diff := got - d; diff > time.Second+200*time.Millisecond || diff < -(time.Second+200*time.Millisecond) {
-				world.Fail(t, "C19/timeperiod/"+what, "%s: duration %v read back as %v", what, d, got)
+			// what is read back is the REMAINING duration: it counts down while the case runs (on a busy machine the
+			// steps of one case can be seconds apart), so the time that has passed since the period was made is
+			// allowed for on the low side
+			tol := time.Second + 200*time.Millisecond
+			if diff := got - d; diff > tol || diff < -(tol+time.Since(created)) {
+				world.Fail(t, "C19/timeperiod/"+what, "%s: duration %v read back as %v, %v after the period was made", what, d, got, time.Since(created).Round(time.Millisecond))
 			}
 		}
 		g, errD := tp.GetDuration()
